@@ -150,6 +150,17 @@ theorem toDigits_length_eq (r n k : Nat) (hr : 2 ≤ r) (hk : 1 ≤ k) (hlt : n 
     · have : r ^ k ≤ r ^ (L - 1) := Nat.pow_le_pow_right (by omega) (by omega)
       omega
 
+theorem toDigits_length_le (r n k : Nat) (hr : 2 ≤ r) (hk : 1 ≤ k) (hlt : n < r ^ k) :
+    (toDigits r n).length ≤ k := by
+  obtain ⟨_, _, h3⟩ := toDigits_length_spec r n hr
+  rcases h3 with h3 | h3
+  · omega
+  · rcases Nat.lt_or_ge k (toDigits r n).length with hgt | hle
+    · exfalso
+      have : r ^ k ≤ r ^ ((toDigits r n).length - 1) := Nat.pow_le_pow_right (by omega) (by omega)
+      omega
+    · exact hle
+
 /-- a canonical numeral: digits below the radix, and either `[0]` or no leading zero -/
 def Canonical (r : Nat) (ds : List Nat) : Prop :=
   ds ≠ [] ∧ (∀ d ∈ ds, d < r) ∧ (ds = [0] ∨ ds.head? ≠ some 0)
